@@ -40,6 +40,8 @@ def bind_world(world):
     import ledgerblue.comm as LC
     import ledgerblue.commTCP as LCT
     _CURRENT["world"] = world
+    from .simdev import base as _base
+    _base.CURRENT_WORLD[0] = world
     LC.getDongle = _global_get_dongle
     LCT.getDongle = _global_get_dongle
     for mod in (H, HT):
